@@ -116,6 +116,17 @@ def check(P: Project, R: Report) -> None:
             R.ob("R1", f"`{ast.unparse(c)[:50]}` is a stateless decode of a per-chunk value", not on_chunk and False, where,
                  "a read that ends inside a multi-byte UTF-8 sequence raises UnicodeDecodeError (or decodes to replacement characters) here",)
 
+    # the decoder's pending bytes belong to the line that is still arriving: nothing in the loop throws them away
+    dec_names = {c.func.value.id for c in decodes if isinstance(c.func.value, ast.Name) and incremental_decoder_def(rd.node, c.func.value.id) is not None}
+    for c in walk_local(loop):
+        if isinstance(c, ast.Call) and isinstance(c.func, ast.Attribute) and isinstance(c.func.value, ast.Name) and c.func.value.id in dec_names and c.func.attr in ("reset", "setstate"):
+            R.ob("R1", "the incremental decoder's state is carried from read to read untouched", False, f"{rel}:{c.lineno}",
+                 f"`{ast.unparse(c)[:50]}` inside the read loop discards the bytes the decoder is holding — the first bytes of a character the read boundary cut, which belong to the line after the one being handled: that line is delivered with U+FFFD in place of the character")
+    for s_ in walk_local(loop):
+        if isinstance(s_, ast.Assign) and any(isinstance(t, ast.Name) and t.id in dec_names for t in s_.targets):
+            R.ob("R1", "the incremental decoder's state is carried from read to read untouched", False, f"{rel}:{s_.lineno}",
+                 f"`{ast.unparse(s_)[:60]}` replaces the decoder inside the read loop: the bytes it was holding (a character cut by the read boundary) are lost")
+
     # ------------------------------------------------------------------ R2 (chunk-independence rules shared with the SSE readers)
     from . import _chunks
 
